@@ -195,6 +195,7 @@ func total(c *hc.Ctx, pool []*canvas.Path) {
 	if len(in) == 0 {
 		return
 	}
+	st := structured(c)
 	budget := 3 * c.N
 	if c.Tier != "quick" {
 		budget = 6 * c.N
@@ -202,6 +203,11 @@ func total(c *hc.Ctx, pool []*canvas.Path) {
 	var derived []*canvas.Path
 	runOn := func(p *canvas.Path, origin string) {
 		q := in[c.Intn(len(in))]
+		if c.Chance(0.3) {
+			// open clipping operand whose last edge is collinear with the missing closing edge
+			q = openCollinearClip(c, p)
+			c.Count("arg:open-collinear-clip")
+		}
 		d := p.Data()
 		x := callCtx{seg: 0, t: float64(c.Intn(5)) / 4}
 		if n := p.Len(); n > 0 {
@@ -223,9 +229,10 @@ func total(c *hc.Ctx, pool []*canvas.Path) {
 			if c.Only != "" && c.Only != "total" && c.Only != cl.name {
 				continue
 			}
-			recv := p.Copy()
-			arg := q.Copy()
+			recv, backP := tailCopy(p)
+			arg, backQ := tailCopy(q)
 			snapP, snapQ := cloneF(recv.Data()), cloneF(arg.Data())
+			snapBackP, snapBackQ := cloneF(backP), cloneF(backQ)
 			ts, dash := cloneF(x.ts), cloneF(x.dash)
 			y := x
 			y.p, y.q, y.ts, y.dash, y.out = recv, arg, ts, dash, nil
@@ -266,9 +273,15 @@ func total(c *hc.Ctx, pool []*canvas.Path) {
 					fail(c, "impure:"+cl.name+"-receiver", cl.name+" changed its receiver: "+fmt.Sprint(snapP)+" -> "+fmt.Sprint(recv.Data()), replay)
 				}
 			}
-			if !sameData(snapQ, arg.Data()) {
-				fail(c, "impure:"+cl.name+"-path-arg", cl.name+" changed its path argument", replay)
+			if !sameData(snapQ, arg.Data()) || !sameData(snapBackQ[:len(snapQ)], backQ[:len(snapQ)]) {
+				fail(c, "impure:"+cl.name+"-path-arg", cl.name+" changed its path argument: "+canvas.NewPathFromData(snapQ).String()+" -> "+canvas.NewPathFromData(backQ[:len(snapQ)]).String(), replay)
+			} else if !sameData(snapBackQ, backQ) {
+				fail(c, "impure:"+cl.name+"-path-arg-capacity", cl.name+" wrote into the spare capacity of its path argument", replay)
 			}
+			if !cl.inPlace && sameData(snapP, recv.Data()) && !sameData(snapBackP, backP) {
+				fail(c, "impure:"+cl.name+"-receiver-capacity", cl.name+" wrote into the spare capacity of its receiver", replay)
+			}
+			checkDerived(c, cl.name, p, y.out, replay)
 			if !sameData(x.ts, ts) {
 				fail(c, "impure:"+cl.name+"-ts-arg", cl.name+" changed the caller's ts slice: "+fmt.Sprint(x.ts)+" -> "+fmt.Sprint(ts), replay)
 			}
@@ -281,6 +294,13 @@ func total(c *hc.Ctx, pool []*canvas.Path) {
 					derived = append(derived, o.Copy())
 				}
 			}
+		}
+	}
+	for _, p := range st {
+		if quietWF(p) {
+			runOn(p, "structured")
+		} else {
+			c.Count("structured:not-wf")
 		}
 	}
 	for it := 0; it < budget && it < len(in)*2; it++ {
